@@ -274,7 +274,7 @@ func c03LoopVarEscape(w *World, r *Report) {
 // the address of a variable the loop re-assigns (shared by all iterations).
 func ruleLoopVarEscape(w *World, r *Report, rule string, inScope func(pkgPath string) bool, consequence string) {
 	n := 0
-	for fn := range allModuleFuncs(w, w.SSA()) {
+	for _, fn := range sortedModuleFuncs(w, w.SSA()) {
 		f0 := fn
 		for f0.Parent() != nil {
 			f0 = f0.Parent()
@@ -507,7 +507,7 @@ func c03Filter(w *World, r *Report, filter, find *types.Func) {
 
 func c03Dial(w *World, r *Report, chIface *types.Interface) {
 	ndial := 0
-	for fn := range allModuleFuncs(w, w.SSA()) {
+	for _, fn := range sortedModuleFuncs(w, w.SSA()) {
 		if fn.Pkg == nil || fn.Pkg.Pkg.Path() != modPath+"/internal/server" {
 			if fn.Parent() == nil || fn.Parent().Pkg == nil || fn.Parent().Pkg.Pkg.Path() != modPath+"/internal/server" {
 				continue
@@ -609,7 +609,7 @@ func muxerOrigins(w *World, v ssa.Value, fn *ssa.Function, depth int, seen map[s
 				}
 			}
 			found := false
-			for caller := range allModuleFuncs(w, w.SSA()) {
+			for _, caller := range sortedModuleFuncs(w, w.SSA()) {
 				for _, c := range callsIn(caller) {
 					if c.Common().StaticCallee() == fn && idx >= 0 && idx < len(c.Common().Args) {
 						found = true
@@ -634,7 +634,7 @@ func muxerOrigins(w *World, v ssa.Value, fn *ssa.Function, depth int, seen map[s
 				// per-handler field: every store to it anywhere in the module must be fresh
 				okf := fv != nil
 				nst := 0
-				for f2 := range allModuleFuncs(w, w.SSA()) {
+				for _, f2 := range sortedModuleFuncs(w, w.SSA()) {
 					allInstrs(f2, func(in ssa.Instruction) {
 						st, ok := in.(*ssa.Store)
 						if !ok {
@@ -691,7 +691,7 @@ func c03Register(w *World, r *Report) {
 	isMux := func(f *types.Func) bool {
 		return f != nil && f.Pkg() != nil && strings.HasSuffix(f.Pkg().Path(), "go-multistream") && recvNamed(f) != nil && recvNamed(f).Obj().Name() == "MultistreamMuxer"
 	}
-	for fn := range allModuleFuncs(w, w.SSA()) {
+	for _, fn := range sortedModuleFuncs(w, w.SSA()) {
 		f0 := fn
 		for f0.Parent() != nil {
 			f0 = f0.Parent()
